@@ -19,7 +19,7 @@ func init() {
 		ID:    "R-VALIDATE",
 		Doc:   "(i-iii) RawMessage / MarshalJSON bytes are emitted or stored only after a parseValue call whose error is tested (TrustRawMessage is the only bypass); (v) internal flags validAsciiPrint/noBackslash are set only in internalParseFlags under their predicate, every decoder's flags are public flags | internalParseFlags(buffer) and never inherit another decoder's internal bits, and a decoder applied to the unquoted (possibly fresh) buffer of parseStringUnquote has the internal bits cleared",
 		Props: []string{"C05", "C02", "C01", "C14", "C11"},
-		Min:   map[string]int{"C05": 8, "C02": 4, "C01": 2, "C14": 2, "C11": 1},
+		Min:   map[string]int{"C05": 8, "C02": 4, "C01": 2, "C14": 1, "C11": 1},
 		Run:   runValidate,
 	})
 }
